@@ -133,7 +133,28 @@ def seeds_for(ep, rng):
     for name, sp in O._registry().items():
         if f"{sp.cls.__module__}.{sp.cls.__qualname__}.parse" == ep and name in S.CLASS_BIN:
             out += [(b, dict(kw)) for b, kw in S.CLASS_BIN[name] if len(b) < 4000]
+    if not out and ep in FALLBACK_SEEDS:      # the seeded constructor recipe of the class refused every draw of this run
+        out = [(FALLBACK_SEEDS[ep](), {})]
     return out[:24]
+
+
+def _bms_sig():
+    from btclib import b58
+    from btclib.ecc import bms
+    return bms.sign(b"C19", b58.wif_from_prv_key(S.K1)).serialize()
+
+
+def _dsa_sig():
+    from btclib.ecc import dsa
+    return dsa.sign(b"C19", S.K1).serialize()
+
+
+def _ssa_sig():
+    from btclib.ecc import ssa
+    return ssa.sign(b"C19", S.K1).serialize()
+
+
+FALLBACK_SEEDS = {"btclib.ecc.bms.Sig.parse": _bms_sig, "btclib.ecc.dsa.Sig.parse": _dsa_sig, "btclib.ecc.ssa.Sig.parse": _ssa_sig}
 
 
 def _tails(rng, b):
